@@ -855,8 +855,8 @@ def documented (w : World SBatch SIter) : Op → Bool
   | .bwrite b => noLiveIterFrom w (.batch b)
   | .bclose b => noLiveIterFrom w (.batch b)
   | .sclose s => w.db.isSome && noLiveIterFrom w (.snap s)
-  | .first _ | .seek _ _ | .iclose _ | .next _ | .prev _ | .key _ => w.db.isSome
-  | .value i =>
+  | .first _ | .seek _ _ | .iclose _ | .next _ | .prev _ => w.db.isSome
+  | .value i | .key i =>
     w.db.isSome &&
     match w.iters i with
     | some (some it) => it.cur.isSome
